@@ -6,7 +6,7 @@ violates the short-hex / rgba rules, a missing `!important`, a wrong line shape.
 import itertools
 import re
 
-from .. import core, gen_cssabbr as G, probes
+from .. import core, gen_cssabbr as G, hostile, probes
 
 ID = 'C05'
 RULE = ('cases = (1-3 properties joined by +, each: key with a unique exact snippet, value list, optional !; syntax; unit options); enumerated: every 1-, 2-, '
@@ -55,7 +55,7 @@ class Mon:
     def __init__(self, ctx):
         import emmet
         self.ctx = ctx
-        self.expand = emmet.expand
+        self.expand = hostile.wrap(emmet.expand, ctx)
         self.caches = {}
         self.n = 0
 
